@@ -1555,8 +1555,8 @@ fn cmd_run(world: &World, args: &Args) -> i32 {
             "single_worker_research_after_a_violation_that_did_not_replay": serial_research,
             "components": {
                 "real_code": ["substrate-fixed derived Encode/Decode/MaxEncodedLen/TypeInfo for FixedI8..FixedU128 (incl. derive-generated decode_into)", "substrate-fixed from_bits/to_bits/{from,to}_{le,be,ne}_bytes (inherent and Fixed-trait)", "substrate-fixed Wrapping::{from_bits,to_bits}", "substrate-fixed serde Serialize/Deserialize impls (Fixed*, Wrapping)", "parity-scale-codec 3.7.5 integer/array/Vec/Option/tuple/Box codecs, Compact<u32> length prefix, EncodeAppend, DecodeLength, DecodeAll, DecodeLimit, Joiner, KeyedVec, IoReader", "std::io::Read::read_exact", "scale-info registry", "serde_json, serde_cbor"],
-                "stubs_owned_by_the_simulator": ["SimOutput (codec::Output)", "SimInput (codec::Input)", "SimRead (std::io::Read under IoReader)", "TokSer / TokDe (serde Serializer / Deserializer, SeqAccess, MapAccess)", "the medium (a byte vector)", "reference model: bits >> 8i little-endian bytes + shape framing", "metadata-driven foreign decoder", "hand-written LE reader"],
-                "absent_not_simulated": ["scheduler/threads", "clock/timers", "network topology", "process crash/restart", "allocator failure"],
+                "stubs_owned_by_the_simulator": ["SimOutput (codec::Output)", "SimInput (codec::Input)", "SimRead (std::io::Read under IoReader)", "TokSer / TokDe (serde Serializer / Deserializer, SeqAccess, MapAccess)", "the medium (a byte vector)", "the second task run inside a seam call (SimInput / SimOutput hooks)", "reference model: bits >> 8i little-endian bytes + shape framing", "metadata-driven foreign decoder", "hand-written LE reader"],
+                "absent_not_simulated": ["pre-emptive scheduler / threads (the library starts none; the overlap of two uses of the library is simulated cooperatively, a second task run inside a seam call: coverage.interleaved_second_task; real threads only in the interpreter probe's two-thread phase)", "clock/timers", "network topology", "process crash/restart", "allocator failure"],
             },
             "oracle_evaluations_that_held": exec::CHECK_IDS.iter().enumerate().map(|(i, id)| (id.to_string(), if *id == "U1" { json!(u1_execs) } else { json!(st.checks_ok[i]) })).collect::<serde_json::Map<String, Value>>(),
             "oracle_to_clause": {
